@@ -2040,6 +2040,12 @@ func rulePXAPIForms(c *Ctx) []Obligation {
 				switch e.Kind {
 				case "funcvalue":
 					ncb++
+					if nst > 0 {
+						// g.XFunc(f) must behave like g.Add(XFunc(f)): the statement is complete — the
+						// callback has run — before the group sees it (a callback that itself appends to
+						// the group would otherwise find its own statement already in front of it)
+						ok, why = false, "the callback runs after the new statement has been appended to the group"
+					}
 				case "store":
 					nst++
 					v := e.Args[0]
